@@ -21,5 +21,14 @@ meta = {
  'detected': bool(viol), 'violation_lines': viol,
  'detected_how': ('monitor on the implementation trace: concrete failing history' if viol and 'no-failing-input-found' not in viol[-1] else ('correspondence (model and code disagree), no failing input found' if viol else 'NOT DETECTED')),
 }
+try:
+    prev = json.load(open(dst + '/meta.json'))
+    hist = prev.get('earlier_runs', [])
+    if prev.get('detected_how') != meta['detected_how'] or prev.get('violation_lines') != meta['violation_lines']:
+        hist = hist + [{'detected_how': prev.get('detected_how'), 'violation_lines': prev.get('violation_lines'), 'checks_run': prev.get('checks_run')}]
+    if hist:
+        meta['earlier_runs'] = hist
+except FileNotFoundError:
+    pass
 json.dump(meta, open(dst + '/meta.json', 'w'), indent=1)
 print(name, meta['detected_how'], meta['existing_suite_with_patch'])
